@@ -68,6 +68,8 @@ func (p *MultilineAction) Do(event *pipeline.Event) pipeline.ActionResult {
 	if event.IsTimeoutKind() {
 		p.logger.Errorf("can't read next sequential event for k8s pod stream")
 		p.resetLogBuf()
+		// the run is over: the next line is a new one, not the rest of the skipped one
+		p.skipNextEvent = false
 		return pipeline.ActionDiscard
 	}
 
@@ -123,7 +125,9 @@ func (p *MultilineAction) Do(event *pipeline.Event) pipeline.ActionResult {
 	if !isEnd && !shouldSplit {
 		sizeAfterAppend := len(p.eventBuf) + len(logFragment)
 		// check buffer size before append
-		if p.maxEventSize == 0 || sizeAfterAppend < p.maxEventSize {
+		// once the rest of the line is being skipped nothing more is appended:
+		// the cut may have stopped short of the limit (it never splits an escape sequence)
+		if !p.skipNextEvent && (p.maxEventSize == 0 || sizeAfterAppend < p.maxEventSize) {
 			p.eventBuf = append(p.eventBuf, logFragment[1:logFragmentLen-1]...)
 		} else if !p.skipNextEvent {
 			if p.controller != nil {
